@@ -735,6 +735,19 @@ fn corpus() -> Vec<(bool, AProg, Spell)> {
     for k in [0x7FFEu16, 0x7FFF, 0x8000] {
         v.push((true, p(vec![It::Stmt(Some(0), St::Named(5)), s(St::Blkw(k)), s(St::Lea(0, Loc::Label(0)))], &["far"]), Spell::Hex));
     }
+    // short label / literal references in programs of more than 32K words that straddle statement
+    // 0x8000 (where 16-bit line arithmetic changes sign): all in range, all must be accepted
+    for pad in [0x7FFBu16, 0x7FFC, 0x7FFD, 0x7FFE, 0x7FFF, 0x8000] {
+        let forms: Vec<Box<dyn Fn(Loc) -> St>> = vec![
+            Box::new(|l| St::Ld(0, l)), Box::new(|l| St::Sto(1, l)), Box::new(|l| St::Lea(2, l)), Box::new(|l| St::Br(7, l)),
+            Box::new(|l| St::Jsr(l)), Box::new(|l| St::Ldi(3, l)), Box::new(|l| St::Sti(4, l)),
+        ];
+        for f in &forms {
+            v.push((true, p(vec![s(St::Blkw(pad)), s(f(Loc::Label(0))), s(St::Named(5)), It::Stmt(Some(0), St::Fill(7))], &["data"]), Spell::Hex));
+            v.push((true, p(vec![s(St::Blkw(pad)), It::Stmt(Some(0), St::Fill(7)), s(St::Named(5)), s(f(Loc::Label(0)))], &["data"]), Spell::Hex));
+        }
+        v.push((true, p(vec![s(St::Blkw(pad)), s(St::Br(7, Loc::Lit(0xFFFE))), s(St::Br(7, Loc::Lit(2))), s(St::Named(5)), s(St::Named(5)), s(St::Ld(0, Loc::Lit(0xFFFD)))], &[]), Spell::Dec));
+    }
     // D7: 65,535 words exactly, and one more
     v.push((true, p(vec![s(St::Blkw(0xFFFF))], &[]), Spell::Hex));
     v.push((true, p(vec![s(St::Blkw(0xFFFE)), s(St::Named(5))], &[]), Spell::Hex));
@@ -981,6 +994,35 @@ fn c04(cx: &mut Ctx) {
                 let (obs, kind) = observe(&mut cx.cap, false, &text, None);
                 cx.sink.put(&format!("P01 0 {} = x", hex(text.as_bytes())), &obs);
                 *cx.gens.entry("non-literal-operand".to_string()).or_insert(0) += 1;
+                *cx.outcomes.entry(kind).or_insert(0) += 1;
+                cx.texts += 1;
+            }
+        }
+    }
+    // (a'') directed raw texts: duplicate label definitions where a definition sits on a `.break` /
+    //       `.orig` line (those lines take the label but no statement, so both definitions can carry
+    //       the same line number). `true` = the specification rejects (a label is defined twice).
+    {
+        let raw: [(&str, bool); 13] = [
+            ("loop .break\nloop add r0 r0 #1\nhalt\n", true),
+            ("start .orig x3000\nstart halt\n", true),
+            ("a .break\n.break\na halt\n", true),
+            ("a .break\nb halt\na halt\n", true),
+            ("a .orig x3000\nb .break\nb halt\n", true),
+            ("x halt\nx .break\n", true),
+            ("x halt\n.break\nx halt\n", true),
+            ("x .break\nx .break\nhalt\n", true),
+            ("x .orig x4000\nhalt\nx .fill #1\n", true),
+            ("halt\nend .break\nend .break\n", true),
+            ("a .break\nb halt\n", false),
+            ("a .orig x3000\nb halt\nbr a\nbr b\n", false),
+            ("halt\nend .break\n", false),
+        ];
+        for (text, reject) in raw {
+            if let Some(_rng) = cx.mine() {
+                let (obs, kind) = observe(&mut cx.cap, false, text, None);
+                cx.sink.put(&format!("P01 0 {} = {}", hex(text.as_bytes()), if reject { "x" } else { "m" }), &obs);
+                *cx.gens.entry("directed-raw-text".to_string()).or_insert(0) += 1;
                 *cx.outcomes.entry(kind).or_insert(0) += 1;
                 cx.texts += 1;
             }
